@@ -433,6 +433,75 @@ def run(ctx):
                 live = set(hp.reach([0]))
                 r7.check(any(b_ in live for b_ in addb) and any(b_ in live for b_ in srch), "take-back-live", "the take-back code is reachable", "the code that takes a recorded statement back is unreachable")
 
+    # ---------------- R8 (D13)
+    r8 = ctx.rule("C08-R8", "what the server cache believes follows what the server answered: a statement whose ParseComplete never came (failed, or skipped after an earlier error of the batch) is dropped from the cache when the batch ends, "
+                  "and a Parse that is sent on the spot is answered with only its own name waiting", floor=4)
+    QF = "registering_prepared_statement"
+    qfields = lambda b, op: {p_[1:] for o in origins(b, op) if o.kind in ("place", "param") for p_ in o.proj if p_.startswith(".") and not p_[1:].isdigit()}
+    rv = ctx.body("pgcat::server::Server::recv::{closure#0}", r8)
+    if rv:
+        rsw = switches(rv)
+        code_sw = [sw for sw in rsw if sw.ty in ("char", "u8", "u32") and any(v == 90 for v, _ in sw.targets) and any(v == 69 for v, _ in sw.targets) and any(v == 49 for v, _ in sw.targets)]
+        if not code_sw:
+            r8.missing("message-code switch ('Z','E','1') in Server::recv")
+        else:
+            arms = {v: t for v, t in code_sw[0].targets}
+            pf = [c for c in rv.calls("re:VecDeque::(pop_front|pop_back)$") if QF in qfields(rv, c.args[0])]
+            # '1' pops one, 'E' pops one and un-caches it
+            r8.check(any(rv.dominates(arms[49], c.block) for c in pf), "ParseComplete=>pop", "ParseComplete takes the answered statement off the waiting queue", "the ParseComplete arm no longer takes a name off Server.%s" % QF)
+            epf = [c for c in pf if rv.dominates(arms[69], c.block)]
+            lp = rv.calls("re:LruCache.*::pop$")
+            from_pf = lambda k, cs: any(o.kind == "call" and o.call.block in [c.block for c in cs] for o in origins(rv, k.args[1], taint=True))
+            r8.check(bool(epf) and any(from_pf(k, epf) for k in lp if rv.dominates(arms[69], k.block)), "ErrorResponse=>uncache", "ErrorResponse drops the statement that was waiting from the cache", "the ErrorResponse arm no longer removes the waiting statement from the server cache")
+            # 'Z': nothing may be left waiting, and what is left is un-cached
+            zpf = [c for c in pf if rv.dominates(arms[90], c.block)]
+            clr = [blk for blk, i_, st in rv.assigns() if proj_fields(st["lhs"])[-1:] == ["data_available"] and st["rv"]["k"] == "use" and const_int(st["rv"]["op"]) == 0 and rv.dominates(arms[90], blk)]
+            if not clr:
+                r8.missing("`data_available = false` in the ReadyForQuery arm")
+            else:
+                noneE = set()
+                for c in zpf:
+                    sE, nE, _ = discr_edges(rv, r"core::option::Option<alloc::string::String>", "Some", origin_pred=lambda o, c=c: o.kind == "call" and o.call.block == c.block, switches_cache=rsw)
+                    noneE |= set(nE)
+                w = rv.uncrossed_path([arms[90]], clr, edges=noneE) if noneE else [arms[90]]
+                r8.check(bool(zpf) and w is None, "ReadyForQuery=>queue-empty", "at ReadyForQuery the waiting queue is popped until it is empty",
+                         "at the end of a batch names can stay in Server.%s: a Parse the server skipped after an earlier error of the batch is never answered, the statement stays in the server cache although it does not exist "
+                         "(the next Parse of that text - by any client - gets a made-up ParseComplete and its Bind fails with `prepared statement \"PGCAT_n\" does not exist`), and later answers are attributed to the wrong names" % QF,
+                         "", None if not zpf else (w and rv.describe_path(w)))
+                r8.check(bool(zpf) and any(from_pf(k, zpf) for k in lp if rv.dominates(arms[90], k.block)), "ReadyForQuery=>uncache-unanswered", "every name still waiting at ReadyForQuery is dropped from the server cache",
+                         "names still waiting at ReadyForQuery are not removed from the server cache")
+    rp = ctx.body(RPS, r8)
+    if rp:
+        psw = switches(rp)
+        push = [c for c in rp.calls("re:VecDeque::(push_back|push_front)$") if QF in qfields(rp, c.args[0])]
+        sd = rp.calls("pgcat::server::Server::send")
+        r8.check(bool(push) and bool(sd) and all(rp.dominates(push[0].block, c.block) for c in sd), "registered-before-sent", "the name is put on the waiting queue before the Parse is sent", "register_prepared_statement sends the Parse before the name is on the waiting queue")
+        # the immediate round trip sees only its own name: the names registered for the batch are set aside before the send and put back afterwards
+        aside = [c for c in rp.calls("re:^core::mem::(swap|take|replace)$") if any(QF in qfields(rp, a) for a in c.args)]
+        back = [blk for blk, i_, st in rp.assigns() if proj_fields(st["lhs"])[-1:] == [QF]] + [c.block for c in aside]
+        # "sent on the spot" = the bool parameter of register_prepared_statement; it is never reassigned, so under that case
+        # every false edge of a test of it is infeasible
+        flag_places = {(pl["l"], tuple(pl["p"])) for nm_, pl, _a in rp.var_places if nm_.startswith("should_send")}
+        notimm = set()
+        for sw2, o, te, fe in bool_value_edges(rp, lambda o: o.kind in ("param", "place") and (o.what, tuple(o.proj)) in flag_places, psw):
+            notimm.add(fe)
+        reassigned = [blk for blk, i_, st in rp.assigns() if (st["lhs"]["l"], tuple(st["lhs"].get("p", []))) in flag_places and st["lhs"]["l"] != 1]
+        if not notimm:
+            r8.missing("tests of the should_send_parse_to_server parameter in register_prepared_statement")
+        if sd and notimm:
+            w1 = rp.uncrossed_path([0], [sd[0].block], blocks=[c.block for c in aside if c.block != sd[0].block], edges=notimm)
+            r8.check(bool(aside) and w1 is None and bool(push) and any(rp.dominates(c.block, push[0].block) or not rp.dominates(push[0].block, c.block) for c in aside), "immediate:batch-names-set-aside",
+                     "before a Parse is sent on the spot the names registered for the client's batch are set aside",
+                     "a Parse sent on the spot is answered while names registered for the client's batch (not sent yet) are waiting in front of it: its ParseComplete/ErrorResponse is attributed to one of them, "
+                     "and the ReadyForQuery of this round trip drops them from the cache although they are about to be created", sd[0].where(), w1 and rp.describe_path(w1))
+            rets = [bb for bb, blk in enumerate(rp.blocks) if blk["term"]["k"] == "return"]
+            T, Fa, _ = call_bool_edges(rp, "pgcat::server::Server::is_data_available", switches_cache=psw)
+            starts = [d for _, d in Fa]
+            oks = [blk for blk, i_, st in rp.assigns() if st["rv"]["k"] == "agg" and st["rv"].get("variant") == "Ok" and st["lhs"]["l"] == 0]
+            back_after = [b_ for b_ in back if any(b_ in rp.reach([s_]) for s_ in starts)]
+            w2 = rp.uncrossed_path(starts, oks, blocks=back_after, edges=notimm) if starts else [0]
+            r8.check(bool(starts) and bool(back_after) and w2 is None, "immediate:batch-names-put-back", "after the round trip the names registered for the batch are put back", "after a Parse was sent on the spot the names registered for the client's batch are lost: their answers will not be matched", "", w2 and rp.describe_path(w2))
+
     # ---------------- R6
     r6 = ctx.rule("C08-R6", "rewriting changes only the statement name (Parse::rewrite, Describe::rename)", floor=2)
     for fn, fld in (("pgcat::messages::Parse::rewrite", "name"), ("pgcat::messages::Describe::rename", "statement_name")):
